@@ -33,6 +33,10 @@ type S3 struct {
 	// RefuseDelete, if set, makes DELETE of the keys it returns true for fail with 403 AccessDenied.
 	RefuseDelete func(key string) bool
 	Refused      int
+	// PageSize, if non-zero, is the number of keys a listing returns per request (continuation tokens for the rest).
+	PageSize int
+	// OnList, if set, is called (without the lock) before the page-th page of a listing is served (1-based).
+	OnList func(page int)
 }
 
 func NewS3(bucket string) *S3 {
@@ -192,6 +196,7 @@ type listResult struct {
 	KeyCount    int       `xml:"KeyCount"`
 	MaxKeys     int       `xml:"MaxKeys"`
 	IsTruncated bool      `xml:"IsTruncated"`
+	NextToken   string    `xml:"NextContinuationToken,omitempty"`
 	Contents    []listObj `xml:"Contents"`
 }
 type listObj struct {
@@ -205,8 +210,25 @@ type listObj struct {
 func (s *S3) list(w http.ResponseWriter, q url.Values) {
 	prefix := q.Get("prefix")
 	res := listResult{Name: s.Bucket, Prefix: prefix, MaxKeys: 100000}
+	after := q.Get("continuation-token")
+	if after == "" {
+		after = q.Get("start-after")
+	}
+	page := 1
+	if i := strings.Index(after, "|page"); i >= 0 {
+		fmt.Sscan(after[i+5:], &page)
+		after = after[:i]
+	}
+	if s.OnList != nil {
+		s.OnList(page)
+	}
 	for _, k := range s.Keys() {
-		if strings.HasPrefix(k, prefix) {
+		if strings.HasPrefix(k, prefix) && k > after {
+			if s.PageSize > 0 && len(res.Contents) == s.PageSize {
+				res.IsTruncated = true
+				res.NextToken = fmt.Sprintf("%s|page%d", res.Contents[len(res.Contents)-1].Key, page+1)
+				break
+			}
 			b, _ := s.Get(k)
 			res.Contents = append(res.Contents, listObj{Key: k, LastModified: "2006-01-02T15:04:05.000Z", ETag: `"x"`, Size: len(b), StorageClass: "STANDARD"})
 		}
